@@ -49,6 +49,18 @@ META = {
         "Trusts numpy, python dict/tuple equality as the definition of row equality; float rows are generated away from rounding boundaries.",
         "DESIGN.md section 4 C06",
     ),
+    "C10": (
+        "hypothesis-generated scenes (random frame forests, instancing, mixed geometry kinds) x operations and edit histories; explicit-placement oracle with own area / volume / moment formulas; one fixed nested scene x every operation enumerated",
+        "Generated search: scenes with a random forest of frames (rigid and similarity edges, depth<=4), meshes / point cloud / 3D path instanced 0..n times, optionally followed by graph edits, in-place edits of shared geometry, add/delete geometry with reads in between; bounds, extents, centroid, scale, triangles (+node attribution), area, volume, center_mass, moment_inertia, convex hull, dump, to_mesh are recomputed by placing a copy of every geometry at every referencing node with the world transform from our own forest model (own signed-tetrahedra integrals); copy, scaled(scalar | per axis), rezero, convert_units, apply_transform, a+b and subscene must keep (scale / move) the multiset of placed triangles and leave the source byte-identical. Exploration only.",
+        "edge transforms are rigid or positive similarities; meshes without unreferenced vertices; scipy ConvexHull trusted for the reference hull volume.",
+        "DESIGN.md section 4 C10",
+    ),
+    "C13": (
+        "exhaustive enumeration of short boolean/integer sequences (also inflated across the count-dtype maxima) and of all small boolean arrays x encoding classes x lazy view chains, pure-python reference codec and numpy-on-dense oracle; hypothesis for grids and binvox",
+        "Generated search: every runlength.py function over all boolean sequences of length<=11 and integer sequences over {0,1,2,5} of length<=5, each also inflated by k in {254,255,256,300,510,511} (and 65535/65536) for count dtypes uint8/int8/uint16/int64 with list/ndarray, sorted/unsorted/repeated/empty index sets, against a 15-line reference codec and the docstrings' dense expressions; every read API of Dense/Sparse/RunLength/BinaryRunLength encodings built from all 4096 boolean arrays of shape (2,3,2) and smaller shapes, composed with flip/transpose/reshape/flat views to depth 2 (3 sampled; complete in thorough), against numpy on the represented array; VoxelGrid index<->point maps, volume, is_filled and binvox export/reload under generated transforms. The enumerated sub-domains are complete; otherwise exploration.",
+        "numpy on the dense array is the oracle; documented 1e-8 identity shortcut of transforms allowed for; zero-length runs emitted by the encoders are lossless and only counted.",
+        "DESIGN.md section 4 C13",
+    ),
     "C17": (
         "enumerated grid (geometry kind x copy method x edited side x every single edit) + hypothesis edit histories; behavioural snapshot oracle",
         "Generated search: every geometry kind in a drawn state (Trimesh cold/warm with colour/texture/PBR visuals, attributes, nested metadata; Box/Sphere/Cylinder/Capsule/Extrusion with non-default parameters; Path2D/3D; PointCloud; nested instanced Scene; VoxelGrid of each encoding) is copied by .copy() (each keyword form), copy.copy and copy.deepcopy; the copy's snapshot (geometry, parameters, visuals, metadata, attributes, derived values) must equal the original's, copying must not change the original, and after each of a drawn sequence of in-place / API edits of one side the other side's snapshot must be unchanged. A complete grid covers kind x copy method x side x each single edit. Exploration only.",
